@@ -53,6 +53,17 @@ def heal_ops(w, ir):
     sub = m.subtree(ir)
     attached = set(sub)
     n = m.nodes[ir]
+    cross = w.cfg.get("cross_module_refs", "none")
+    order = {ml: i for i, ml in enumerate(n.a["modules"])}
+
+    def bad(ref, frm):
+        if ref not in attached:
+            return True
+        a, b = m.ancestor(ref, "mod"), m.ancestor(frm, "mod")
+        if a == b:
+            return False
+        return not (cross == "backward" and a in order and b in order and order[a] < order[b])
+
     for e in sorted(n.a["cfg"], key=repr):
         if e[0] not in attached or e[1] not in attached:
             ops.append({"op": "cfg", "ir": ir, "method": "discard", "args": [[e[0], e[1], list(e[2]) if e[2] is not None else None]]})
@@ -60,18 +71,18 @@ def heal_ops(w, ir):
         x = m.nodes[l]
         if x.kind == "mod":
             ep = x.a["entry_point"]
-            if ep is not None and (ep not in attached or m.ancestor(ep, "mod") != l):
+            if ep is not None and bad(ep, l):
                 ops.append({"op": "setattr", "label": l, "attr": "entry_point", "value": None})
         elif x.kind == "sym":
             p = x.a["payload"]
-            if p is not None and p[0] == "ref" and (p[1] not in attached or m.ancestor(p[1], "mod") != m.ancestor(l, "mod")):
+            if p is not None and p[0] == "ref" and bad(p[1], l):
                 ops.append({"op": "setattr", "label": l, "attr": "referent", "value": None})
         elif x.kind == "bi":
             mod = m.ancestor(l, "mod")
             for off, cell in sorted(x.a["se"].items()):
                 s = cell[0]
                 syms = [s[2]] if s[0] == "ac" else [s[3], s[4]]
-                if not (0 <= off < 2**64) or any(y not in attached or m.ancestor(y, "mod") != mod for y in syms):
+                if not (0 <= off < 2**64) or any(bad(y, l) for y in syms):
                     ops.append({"op": "se", "bi": l, "method": "delitem", "args": [off]})
     if n.a["version"] != 4:
         ops.append({"op": "setattr", "label": ir, "attr": "version", "value": 4})
@@ -89,15 +100,20 @@ def enrich_ops(w, r, ir):
     ops = []
     sub = m.subtree(ir)
     cfgn = [l for l in sub if m.nodes[l].kind in ("cb", "px")]
+    earlier_syms = []
     for ml in m.nodes[ir].a["modules"]:
         local = [l for l in m.subtree(ml)]
         cbs = [l for l in local if m.nodes[l].kind == "cb"]
         blocks = [l for l in local if m.nodes[l].kind in ("cb", "db", "px")]
-        syms = [l for l in local if m.nodes[l].kind == "sym"]
+        own_syms = [l for l in local if m.nodes[l].kind == "sym"]
+        syms = own_syms
+        if w.cfg.get("cross_module_refs", "none") == "backward" and earlier_syms and (not own_syms or r.random() < 0.25):
+            syms = earlier_syms  # expressions naming symbols of an earlier module
+        earlier_syms = earlier_syms + own_syms
         bis = [l for l in local if m.nodes[l].kind == "bi"]
         if cbs and m.nodes[ml].a["entry_point"] is None and r.random() < 0.8:
             ops.append({"op": "setattr", "label": ml, "attr": "entry_point", "value": cbs[r.randrange(len(cbs))]})
-        for s in syms:
+        for s in own_syms:
             if blocks and m.nodes[s].a["payload"] is None and r.random() < 0.6:
                 ops.append({"op": "setattr", "label": s, "attr": "referent", "value": blocks[r.randrange(len(blocks))]})
         for b in bis:
